@@ -89,7 +89,7 @@ func (it *MapIter) Next() bool {
 func (it *MapIter) Key() reflect.Value   { return it.keys[it.i] }
 func (it *MapIter) Value() reflect.Value { return it.m.MapIndex(it.keys[it.i]) }
 
-func noteSmall() { w.res.MapSmall++ }
+func noteSmall() { w.res.MapSmall++; w.tick() }
 
 func orderKeys[K comparable](keys []K, site string) {
 	sk := make([]sortKey, len(keys))
